@@ -434,6 +434,24 @@ fn run_ser<T: Carrier, U: SerializeValue + ?Sized>(ty: &Ty, val: &Val, ctx: &mut
     line(&res, false)
 }
 
+/// Hash-based carriers iterate in arbitrary order: print their content sorted by the key's own order.
+fn canon_hashed(name: &str, v: Val) -> Val {
+    if !HASHED.contains(&name) {
+        return v;
+    }
+    match v {
+        Val::Set(mut vs) => {
+            vs.sort_by_key(sort_key);
+            Val::Set(vs)
+        }
+        Val::Map(mut kvs) => {
+            kvs.sort_by_key(|kv| sort_key(&kv.0));
+            Val::Map(kvs)
+        }
+        v => v,
+    }
+}
+
 fn has_vector(t: &Ty) -> bool {
     match t {
         Ty::Vector(..) => true,
@@ -458,7 +476,7 @@ where
         Some(Ok(x)) => {
             let mut buf = Vec::new();
             match x.serialize(&ct, CellWriter::new(&mut buf)) {
-                Err(_) => val_str(&x.to_val()),
+                Err(_) => val_str(&canon_hashed(name, x.to_val())),
                 Ok(_) => {
                     let b2 = split_cell(&buf, ctx);
                     // a decoded `None` / `Empty` element of a vector re-serializes into the known shapes C01-F2 / C01-F9
@@ -468,7 +486,7 @@ where
                         _ if known_shape => {}
                         _ => ctx.fail("typed decode: deser(ser(deser b)) differs from deser b".to_owned()),
                     }
-                    val_str(&x.to_val())
+                    val_str(&canon_hashed(name, x.to_val()))
                 }
             }
         }
@@ -684,11 +702,34 @@ pub fn generate(rng: &mut Rng, tier: Tier, emit: &mut dyn FnMut(String)) {
     }
     // malformed / mutated cell bodies through the typed decoders (model-independent: no panic, idempotence)
     for _ in 0..per * 12 {
-        let name = *rng.pick(FULL);
-        if name.contains("set") || name.contains("map") || EXTERNAL.iter().any(|e| name.contains(e)) {
+        let all: Vec<&str> = FULL.iter().chain(HASHED).copied().collect();
+        let name = if rng.chance(1, 3) { *rng.pick(&["bset_i32", "bset_string", "bmap_i32_string", "bmap_string_vec_i32",
+            "hset_i32", "hset_string", "hmap_string_i64", "hmap_i32_opt_string"]) } else { *rng.pick(&all) };
+        if EXTERNAL.iter().any(|e| name.contains(e)) {
             continue;
         }
         let Some((t, v)) = gen_registered(name, rng) else { continue };
+        // set / map bodies also in non-canonical form: unsorted, with duplicate elements / keys
+        let v = match v {
+            Val::Set(mut vs) if rng.bool() && !vs.is_empty() => {
+                let d = vs[rng.below(vs.len() as u64) as usize].clone();
+                vs.push(d);
+                if rng.bool() {
+                    let d2 = vs[0].clone();
+                    vs.insert(0, d2);
+                }
+                rng.shuffle(&mut vs);
+                Val::Set(vs)
+            }
+            Val::Map(mut kvs) if rng.bool() && !kvs.is_empty() => {
+                let (k, _) = kvs[rng.below(kvs.len() as u64) as usize].clone();
+                let (_, v2) = kvs[rng.below(kvs.len() as u64) as usize].clone();
+                kvs.push((k, v2));
+                rng.shuffle(&mut kvs);
+                Val::Map(kvs)
+            }
+            v => v,
+        };
         let mut b = spec_body(&t, &v).unwrap_or_default();
         match rng.below(6) {
             0 => {}
